@@ -214,12 +214,16 @@ func c13Plan(ctx *core.Ctx, rows []c13Row, from int) (scs []c13Scenario, skipped
 					kinds = append(append([]string{}, kinds...), "mulg", "rerand", "mulca") // a structured alteration treated as an unrelated value
 				}
 				kind := kinds[(ri+pi+int(ctx.Seed))%len(kinds)]
-				wc := row.Sys == "bobwc"
-				if row.Sys == "alice" {
-					wc = (ri+pi+int(ctx.Seed))%2 == 0
+				variants := []bool{row.Sys == "bobwc"}
+				if row.Sys == "alice" { // Alice's proof is verified by BobMid and by BobMidWC
+					variants = []bool{false, true}
 				}
-				ac, bc := nextCls(wc, row.Site == "cA" || kind == "mulca")
-				add(c13Scenario{WC: wc, IA: p[0], IB: p[1], ACls: ac, BCls: bc, Site: row.Site, Kind: kind, Hist: c13Hists[(hi+ri+pi)%3], Craft: &row})
+				for vi, wc := range variants {
+					ac, bc := nextCls(wc, row.Site == "cA" || kind == "mulca")
+					add(c13Scenario{WC: wc, IA: p[0], IB: p[1], ACls: ac, BCls: bc, Site: row.Site, Kind: kind, Hist: c13Hists[(hi+ri+pi+vi)%3], Craft: &row})
+					kind = kinds[(ri+pi+int(ctx.Seed)+1)%len(kinds)]
+					p = pick()
+				}
 			case "B":
 				for hj, hist := range []string{"", "after"} {
 					kind := c13CraftPointKinds[(ri+pi+hj+int(ctx.Seed))%len(c13CraftPointKinds)]
